@@ -161,12 +161,13 @@ class Config(object):
         self.use_class = use_class or bool(rules)
         self.omit_xquery = False            # True: render no iauth_xquery section at all
         self.modules = None                 # explicit `modules ( ... )` list (order matters to the loader, not to the properties)
+        self.logs = None                    # body of a `logs { }` section (where the log lines go changes nothing on the server channel)
 
     def text(self, moddir):
         import classmodel
         return daemon.default_conf(moddir, modules=self.modules or (("iauth_class",) if self.use_class else ("iauth_xquery",)),
                                    timeout=self.timeout, services=(None if self.omit_xquery else self.services),
-                                   rules_text=classmodel.render_rules(self.rules) if self.rules else "")
+                                   rules_text=classmodel.render_rules(self.rules) if self.rules else "", logs_text=self.logs or "")
 
     def proto_of(self, svc):
         for n, p in self.services:
@@ -178,6 +179,8 @@ class Config(object):
         d = {"services": self.services, "timeout": self.timeout, "rules": self.rules, "use_class": self.use_class}
         if self.modules:
             d["modules"] = list(self.modules)
+        if self.logs:
+            d["logs"] = self.logs
         return d
 
     @staticmethod
@@ -185,6 +188,7 @@ class Config(object):
         c = Config([tuple(x) for x in d["services"]], d["timeout"], d.get("rules"), d.get("use_class", False))
         if d.get("modules"):
             c.modules = tuple(d["modules"])
+        c.logs = d.get("logs")
         return c
 
 
@@ -235,6 +239,7 @@ class Session(object):
                 newcfg = Config([tuple(x) for x in ev["services"]], self.config.timeout,
                                 ev["rules"] if ev.get("rules") is not None else self.config.rules, self.config.use_class)
                 newcfg.modules = self.config.modules
+                newcfg.logs = self.config.logs
                 out = self.d.reload(newcfg.text(self.d.build["moddir"]))
                 out = [l for l in out if not l.startswith("#verif")]
                 self.config = newcfg
